@@ -1227,3 +1227,50 @@ def render_lines(rng, forms, style):
         if cur:
             lines.append(cur)
     return lines
+
+
+# ------------------------------------------------------------------------------------------
+# C17: program files
+# ------------------------------------------------------------------------------------------
+SYNTAX_FAULTS = ["(define)", ")", "(display 1", "#z", "\"unterminated", "(lambda)", "(if)", "(let ((x)) x)", "(1 . 2)",
+                 "(define-syntax m)", "'", "(quote)", "#\\"]
+
+
+def file_program(rng, nforms=8):
+    """returns (forms, index of the failing form or None, kind of failure)"""
+    g = Gen(rng, ticks=False, derived=True)
+    base, env = g.program(nforms, 2)
+    forms = ["(import (scheme base) (scheme write))"]
+    for f in base:
+        if f.startswith("(define"):
+            forms.append(f)
+        else:
+            forms.append(rng.choice(["(display %s)", "(display %s) (newline)", "(display (list %s \"a b\" #\\c 1.5 1/2))",
+                                     "%s"]) % f)
+    idx, kind = None, None
+    k = rng.random()
+    if k < 0.35:
+        idx = rng.randint(1, len(forms))
+        kind = "runtime " + rng.choice(FAULT_KINDS)
+        forms.insert(idx, "(display %s)" % fault_expr(rng, kind.split(" ")[1]))
+    elif k < 0.6:
+        idx = rng.randint(1, len(forms))
+        kind = "syntax"
+        forms.insert(idx, rng.choice(SYNTAX_FAULTS))
+    if idx is not None:
+        forms.append("(display 'after)")
+    return forms, idx, kind
+
+
+def render_file(rng, forms, eol, final_newline):
+    parts = []
+    for f in forms:
+        if rng.random() < 0.2:
+            parts.append("; a comment ) (")
+        if rng.random() < 0.15:
+            parts.append("")
+        parts.append(("  " if rng.random() < 0.2 else "") + f)
+    text = eol.join(parts)
+    if final_newline:
+        text += eol
+    return text
